@@ -3,7 +3,7 @@ META = {
     "level": "exploration",
     "technique": "runtime oracle on the real create_grid_manager_verifier(): seeded certificate mixes and time walks, judged by a by-construction predicate with an independent ed25519 decision",
     "text": "Executes the real allmydata.grid_manager (create_grid_manager_verifier, validate_grid_manager_certificate, _GridManager.sign, SignedCertificate.marshal/load) with real ed25519 keys on seeded mixes of certificates (valid, issued by the real sign(), other server, non-configured or self signer, expired, about to expire, every-byte-position tampering of certificate and signature, re-targeted / expiry-extended forgeries, swapped signatures, duplicates, container-level malformations) and calls the same verifier repeatedly while a virtual now_fn moves across the expiry instants. Oracle: permitted iff no keys configured or some certificate verifies (cryptography called directly) under a configured key, names the server and has integer-microsecond expiry > now. Sampled; the single-byte tamper sweep is complete per base certificate.",
-    "note": "Trusts the cryptography package's Ed25519 verify and the harness' integer-microsecond clock; the instant now == expires, version != 1 and manager-signed malformed certificates are counted as dont_care.",
+    "note": "Trusts the cryptography package's Ed25519 verify and the harness' integer-microsecond clock; at the instant now == expires the certificate counts as expired (judged); version != 1, lenient key spelling and manager-signed malformed certificates are counted as dont_care.",
 }
 LEVEL = "exploration"
 BUDGET = {"quick": 35, "thorough": 240}
@@ -65,10 +65,8 @@ def status(c, configured, target_s, now_us):
         names = None
     if names is False:
         return "bad"
-    if c.expires_us < now_us:
-        return "bad"
-    if c.expires_us == now_us:
-        return "open"
+    if c.expires_us <= now_us:
+        return "bad"             # a certificate that expires at T has expired at T (lead's decision; code: expires > now)
     if names is None or c.version != 1:
         return "open"
     return "good"
@@ -120,7 +118,7 @@ def run(ck):
                "3-9 instants incl. expires-1us/expires/expires+1us) on one verifier; plus per-base-certificate sweeps "
                "tampering every certificate byte and every signature byte; distinct = (keys, cert bytes+sigs, instants); "
                "non-trivial = >=1 configured key and >=1 certificate")
-    ck.assumptions.append("now == expires is left open by the statement (code treats it as expired)")
+    ck.assumptions.append("a certificate has expired at the instant now == expires (judged, to the microsecond)")
     ck.assumptions.append("certificates whose signed content a configured manager made malformed (missing/naive "
                           "expires, non-JSON) are outside the statement")
     rng = ck.rng("c33")
@@ -210,7 +208,7 @@ def run(ck):
                 got = e
             results.append(got)
             if exp is None:
-                ck.skip(why if why != "open" else "equality-instant-or-version-or-spelling")
+                ck.skip(why if why != "open" else "version-or-key-spelling")
                 continue
             ck.mon("permission-predicate")
             if isinstance(got, Exception):
@@ -234,6 +232,8 @@ def run(ck):
                 ck.hit("granted")
             elif exp is False:
                 ck.hit("denied")
+                if any(c.expires_us == now_us for c in certs):
+                    ck.hit("denied-at-expiry-instant")
         # history reach: the same verifier flipped from permitted to denied as time advanced
         flat = [r for r in results if isinstance(r, bool)]
         if True in flat and False in flat[flat.index(True):]:
@@ -435,7 +435,7 @@ def run(ck):
         evaluate([c], [m], target, [T0, T0 + 10 ** 9 - 1, T0 + 10 ** 9 + 1], "container")
 
     ck.require_monitor("permission-predicate", "signature-check")
-    ck.require_reach("granted", "denied", "expired-during-history", "bad-signature-rejected", "real-sign",
+    ck.require_reach("granted", "denied", "denied-at-expiry-instant", "expired-during-history", "bad-signature-rejected", "real-sign",
                      "tamper:val:expires", "tamper:val:public_key", "tamper:val:version", "tamper:sig-R", "tamper:sig-S",
                      "forgery:forged-retarget", "forgery:forged-extend-expiry")
     ck.exhaustive = False
@@ -450,4 +450,4 @@ def run(ck):
 #   `for key in keys:` -> `for key in keys[:1]:` (only first manager key) ....... caught: denies-despite-good-certificate
 #   no keys -> `lambda: False` .................................................. caught: denies-despite-good-certificate
 #   validate() returns at the first certificate naming the server (even expired)  caught: denies-despite-good-certificate
-#   NOT catchable by design: `expires > now` -> `expires >= now` (the equality instant is dont_care in the statement).
+#   `expires > now` -> `now > expires: continue` (seeded C33-1: still valid at now == expires)  caught: permits-without-good-certificate
